@@ -253,6 +253,7 @@ def check_graph(expr, pickle_check=True):
         keys = expr.__dask_keys__()
     except Exception as ex:
         return [("graph-raise", f"{type(ex).__name__}: {str(ex)[:160]}")]
+    out.extend(fused_input_bindings(expr))
     flat = []
     stack = [keys]
     while stack:
@@ -323,6 +324,34 @@ def check_graph(expr, pickle_check=True):
                 cloudpickle.dumps(g)
         except Exception as ex:
             out.append(("not-serializable", f"{type(ex).__name__}: {str(ex)[:160]}"))
+    return out
+
+
+def fused_input_bindings(expr):
+    """Every fused task (Fused._execute_task, sub-graph, output name, *input keys) binds its k-th input key to the
+    placeholder "_k" inside its sub-graph - the positional contract between Fused._task and Fused._execute_task."""
+    out = []
+    for node in iter_nodes(expr):
+        if type(node).__name__ != "Fused":
+            continue
+        n = node.npartitions
+        for i in sorted({0, n // 2, n - 1}):
+            try:
+                task = node._task(i)
+            except Exception as ex:
+                out.append(("fused-task-raises", f"{node._name[:50]}._task({i}): {type(ex).__name__}: {str(ex)[:120]}"))
+                break
+            sub = task[1]
+            if task[2] not in sub:
+                out.append(("fused-output-undefined", f"{node._name[:50]}._task({i}): output {task[2]!r} is not defined in the sub-graph"))
+            for k, key in enumerate(task[3:]):
+                bound = sub.get(key, "<missing>")
+                same = {f"_{j}" for j, other in enumerate(task[3:]) if other == key}  # one key may be passed at several positions
+                if bound not in same:
+                    out.append(("fused-input-bound-to-wrong-position", f"{node._name[:50]}._task({i}): input #{k} {str(key)[:70]} is bound to {bound!r} inside the sub-graph, expected '_{k}'"))
+                    break
+            if out:
+                return out
     return out
 
 
